@@ -378,7 +378,7 @@ func build(tree, late []*routemodel.Node, filters []string, mount string) *built
 	}
 	var s restli.Server
 	switch mount {
-	case "prefix", "prefix-mux":
+	case "prefix", "prefix-mux", "prefix-addtomux":
 		s = restli.NewPrefixedServer(mountPrefix, fs...)
 	default:
 		s = restli.NewServer(fs...)
@@ -386,7 +386,7 @@ func build(tree, late []*routemodel.Node, filters []string, mount string) *built
 	registerTree(w, s, tree, nil, "", false)
 	mounted := func() http.Handler {
 		switch mount {
-		case "mux":
+		case "mux", "prefix-addtomux":
 			mux := http.NewServeMux()
 			s.AddToMux(mux)
 			return mux
